@@ -183,5 +183,112 @@ func genX509(repo string, write writer) {
 		fmt.Fprintf(b, "def signInput_%s : String := %q\n", fn, cond)
 	}
 	b.WriteString("\n")
+	// (5) the algorithms `isRSAPSS` answers true for
+	if fd := p.findFunc("SignatureAlgorithm", "isRSAPSS"); fd == nil {
+		fail("x509.isRSAPSS", "not found")
+	} else {
+		var names []string
+		ast.Inspect(fd.Body, func(n ast.Node) bool {
+			cl, ok := n.(*ast.CaseClause)
+			if !ok {
+				return true
+			}
+			yes := false
+			for _, st := range cl.Body {
+				if rs, ok := st.(*ast.ReturnStmt); ok && len(rs.Results) == 1 && exprName(rs.Results[0]) == "true" {
+					yes = true
+				}
+			}
+			if yes {
+				for _, e := range cl.List {
+					names = append(names, fmt.Sprintf("%q", exprName(e)))
+				}
+			}
+			return true
+		})
+		if len(names) == 0 {
+			fail("x509.isRSAPSS", "no `case …: return true` found")
+		}
+		b.WriteString("/-- the algorithms for which `isRSAPSS()` is true -/\n")
+		fmt.Fprintf(b, "def rsaPSSAlgos : List String := [%s]\n\n", strings.Join(names, ", "))
+	}
+	// (6) the options each creator hands to signer.Sign: the bare hash (an RSA key then signs PKCS#1 v1.5), or
+	// *rsa.PSSOptions when the template's algorithm isRSAPSS(); second component: the SaltLength it sets
+	for _, fn := range []string{"CreateCertificate", "CreateCertificateRequest", "CreateRevocationList"} {
+		fd := p.findFunc("", fn)
+		if fd == nil {
+			fail("x509."+fn, "not found")
+			continue
+		}
+		// the third argument of the (only) `.Sign(rand, digest, opts)` call
+		opts, calls := "?", 0
+		ast.Inspect(fd.Body, func(n ast.Node) bool {
+			if ce, ok := n.(*ast.CallExpr); ok && len(ce.Args) == 3 {
+				if se, ok := ce.Fun.(*ast.SelectorExpr); ok && se.Sel.Name == "Sign" {
+					opts = exprName(ce.Args[2])
+					calls++
+				}
+			}
+			return true
+		})
+		if calls != 1 {
+			fail("x509."+fn, "expected one Sign call, found %d", calls)
+		}
+		val, saltv := "hash-only", ""
+		ast.Inspect(fd.Body, func(n ast.Node) bool {
+			is, ok := n.(*ast.IfStmt)
+			if !ok {
+				return true
+			}
+			guarded := false
+			ast.Inspect(is.Cond, func(m ast.Node) bool {
+				if ce, ok := m.(*ast.CallExpr); ok && len(ce.Args) == 0 {
+					if se, ok := ce.Fun.(*ast.SelectorExpr); ok && se.Sel.Name == "isRSAPSS" && exprName(se.X) == "template.SignatureAlgorithm" {
+						guarded = true
+					}
+				}
+				return true
+			})
+			if !guarded {
+				return true
+			}
+			for _, st := range is.Body.List {
+				as, ok := st.(*ast.AssignStmt)
+				if !ok || len(as.Lhs) != 1 || len(as.Rhs) != 1 || exprName(as.Lhs[0]) != opts {
+					continue
+				}
+				if un, ok := as.Rhs[0].(*ast.UnaryExpr); ok && un.Op == token.AND {
+					if cl, ok := un.X.(*ast.CompositeLit); ok && exprName(cl.Type) == "rsa.PSSOptions" {
+						salt := "?"
+						for _, el := range cl.Elts {
+							if kv, ok := el.(*ast.KeyValueExpr); ok && exprName(kv.Key) == "SaltLength" {
+								salt = exprName(kv.Value)
+							}
+						}
+						val, saltv = "pss-iff-requested-isRSAPSS", salt
+					}
+				}
+			}
+			return true
+		})
+		fmt.Fprintf(b, "def signerOpts_%s : String × String := (%q, %q)\n", fn, val, saltv)
+	}
+	// the salt length the verifier insists on
+	if fd := p.findFunc("", "checkSignature"); fd != nil {
+		salt := "?"
+		ast.Inspect(fd.Body, func(n ast.Node) bool {
+			if ce, ok := n.(*ast.CallExpr); ok && exprName(ce.Fun) == "rsa.VerifyPSS" {
+				ast.Inspect(ce, func(m ast.Node) bool {
+					if kv, ok := m.(*ast.KeyValueExpr); ok && exprName(kv.Key) == "SaltLength" {
+						salt = exprName(kv.Value)
+					}
+					return true
+				})
+			}
+			return true
+		})
+		fmt.Fprintf(b, "def verifyPSSSalt : String := %q\n", salt)
+	}
+	b.WriteString("\n")
 	write("X509Tables.lean", b, "Gen.X509")
 }
